@@ -85,7 +85,10 @@ def handleH (st : St) (n : Nat) (toks : List String) : Result := Id.run do
   st := st.bump s!"bastion.class.{cls}"
   -- monitors
   if !documented.contains istatus then
-    let r := fail st n "C19" s!"endpoint answered undocumented status {istatus} (999 = panic)"
+    let r := fail st n "C19" (if istatus == 998 then "a request (or the read that follows it) was left unanswered: the endpoint stopped serving" else s!"endpoint answered undocumented status {istatus} (999 = panic)")
+    st := r.st; outs := outs ++ r.out
+  if istatus == 998 then
+    let r := fail st n "C10" s!"class={cls}: the request (or the read that follows it) was left unanswered; every request gets one of the protocol's answers"
     st := r.st; outs := outs ++ r.out
   if expect != "-" && expect != toString istatus then
     let r := fail st n "C10" s!"class={cls} expected status {expect}, endpoint answered {istatus}"
